@@ -150,4 +150,30 @@ def importWorld : World Nat Nat Bool Unit (Option Bool) :=
 example : (run importWorld false (fresh (fun f => if f = 0 then some 1 else none)) [.rebuild (), .update 1 9, .rebuild ()]).2
     = [some false, some true] := by decide
 
+/-- the variant of `update` that drops the cache for a new file only when the new file PARSES (the seeded changes C10-r12 /
+C14-r12): a tidy-looking rewrite of `update_file_content_inner` -/
+def updateFlushIfParses {File Content Mod Sett Out : Type} [DecidableEq File] (w : World File Content Mod Sett Out)
+    (s : State File Content Mod) (f : File) (c : Content) : State File Content Mod :=
+  let isNew := (s.disk f).isNone
+  let disk' : File → Option Content := fun g => if g = f then some c else s.disk g
+  match w.parse (fun h => (disk' h).isSome) f c with
+  | some m => { disk := disk', cache := fun g => if g = f then some m else if isNew then none else s.cache g }
+  | none => { disk := disk', cache := fun g => if g = f then none else s.cache g }
+
+/-- file 0 imports file 1 (its module says whether the import resolves); the content 0 of file 1 does not parse -/
+def importWorld2 : World Nat Nat Bool Unit (Option Bool) :=
+  { parse := fun ex f c => if f = 0 then some (ex 1) else if c = 0 then none else some true
+    extract := fun _ v => v 0
+    touched := fun _ _ => [0] }
+
+/-- … is history dependent: file 1 is created with a content that does not parse; the importer keeps the module it was
+bound to while file 1 was missing, where a fresh session resolves the import -/
+theorem flush_only_when_new_file_parses_breaks_history_independence :
+    let s0 : State Nat Nat Bool := fresh (fun f => if f = 0 then some 1 else none)
+    let s1 := (rebuild importWorld2 s0 ()).1
+    let s2 := updateFlushIfParses importWorld2 s1 1 0
+    (rebuild importWorld2 s2 ()).2 = some false ∧
+    (rebuild importWorld2 (fresh s2.disk : State Nat Nat Bool) ()).2 = some true ∧
+    (rebuild importWorld2 (update importWorld2 false s1 1 0) ()).2 = some true := by decide
+
 end BeffVerif.C14
